@@ -1424,3 +1424,102 @@ Lemma ex_call_shown :
   [40; 45; 53; 44; 32; 34; 104; 105; 34; 44; 32; 34; 60; 48; 120; 50; 48; 48; 48; 62; 34; 44; 32; 34; 78; 85; 76; 76; 34; 41].
   (* (-5, "hi", "<0x2000>", "NULL") *)
 Proof. vm_compute. reflexivity. Qed.
+
+(* ------------------------------------------------------------------ several specs on one direction (several -R options) *)
+(* the only step that is not modelled: an x87 long double return value *)
+Definition not_x87_ret (s : spec) : Prop := ~ (s_idx s = 0 /\ s_fmt s = FFloat /\ s_size s = 10).
+
+Lemma get_retval_some : forall inp s val, not_x87_ret s -> s_idx s = 0 -> exists v, get_retval inp s val = Some v.
+Proof.
+  intros inp s val H H0. unfold get_retval. destruct (s_fmt s) eqn:Ef; try (eexists; reflexivity).
+  destruct (s_size s =? 10) eqn:E; [|eexists; reflexivity].
+  exfalso. apply H. repeat split; try assumption. lia.
+Qed.
+
+Lemma step_modelled : forall fill inp is_ret st s,
+  not_x87_ret s -> m_unmodelled st = false -> m_unmodelled (step fill inp is_ret st s) = false.
+Proof.
+  intros fill inp is_ret st s Hx H. unfold step.
+  destruct (m_stop st); [exact H|].
+  destruct (Bool.eqb is_ret (s_idx s =? 0)) eqn:Er; cbn [negb]; [|exact H].
+  destruct (fmt_eqb (s_fmt s) FStruct && (MAX_SIZE <? m_total st + s_size s)); [exact H|].
+  assert (Hf : exists sw val,
+    (if is_ret then match get_retval inp s (m_val st) with Some v => Some ([], v) | None => None end
+     else if fmt_eqb (s_fmt s) FStruct then Some (get_struct_arg inp s (m_val st))
+     else Some ([], get_arg inp s (m_val st))) = Some (sw, val)).
+  { destruct is_ret.
+    - destruct (s_idx s =? 0) eqn:E0; [|discriminate].
+      destruct (get_retval_some inp s (m_val st) Hx ltac:(lia)) as (v & ->). eauto.
+    - destruct (fmt_eqb (s_fmt s) FStruct); [destruct (get_struct_arg inp s (m_val st))|]; eauto. }
+  destruct Hf as (sw & val & ->).
+  destruct (is_strfmt (s_fmt s)).
+  - destruct (MAX_SIZE <? m_total st + 4); [exact H|].
+    match goal with |- context [if ?p =? 0 then _ else _] => destruct (p =? 0) end.
+    + destruct (MAX_SIZE <? m_total st + ALIGN (4 + 2) 4); exact H.
+    + match goal with |- context [copy_loop ?a ?b ?c ?d ?e] => destruct (copy_loop a b c d e) end. exact H.
+  - destruct (fmt_eqb (s_fmt s) FStruct); [exact H|].
+    destruct (MAX_SIZE <? m_total st + ALIGN (s_size s) 4); exact H.
+Qed.
+
+Lemma run_modelled : forall fill inp is_ret specs,
+  Forall not_x87_ret specs -> m_unmodelled (run fill inp is_ret specs) = false.
+Proof.
+  intros fill inp is_ret specs H. unfold run.
+  assert (H0 : m_unmodelled mst0 = false) by reflexivity.
+  revert H0. generalize mst0.
+  induction H as [|s r Hs Hr IH]; intros st H0; simpl; [exact H0|].
+  apply IH. apply step_modelled; assumption.
+Qed.
+
+(* C09 framing, closed form: ANY spec list - any number of argument specs and any number of return value specs
+   of any class side by side (as several -A / -R options matching one function produce: add_arg_spec merges only
+   specs of the same class) - except an x87 long double return value *)
+Theorem framing_all : forall fill inp is_ret specs bg p rest,
+  Forall wf_spec specs -> Forall not_x87_ret specs ->
+  payload (run fill inp is_ret specs) = Some p ->
+  read_args is_ret specs (fit (ALIGN (lenN p) 8) bg p ++ rest) = Some (p, rest).
+Proof.
+  intros. apply framing with (fill := fill) (inp := inp); try assumption. apply run_modelled. assumption.
+Qed.
+
+Theorem stream_resync_all : forall k specs_of bg fill inp t ty depth addr pl rest,
+  t < 2 ^ 64 -> ty < 4 -> depth < 1024 -> addr < 2 ^ 48 ->
+  Forall wf_spec (specs_of addr) -> Forall not_x87_ret (specs_of addr) ->
+  (pl = None \/ pl = payload (run fill inp (ty =? UFTRACE_EXIT) (specs_of addr))) ->
+  decode_stream (S k) specs_of (enc_rec bg t ty depth addr pl ++ rest) =
+  {| d_time := t; d_type := ty; d_depth := depth; d_addr := addr; d_args := pl |} :: decode_stream k specs_of rest.
+Proof.
+  intros. eapply stream_resync; try eassumption. apply run_modelled. assumption.
+Qed.
+
+(* two return value specs of different class on one function: `-R f@retval/f -R '^f$@retval'` *)
+Definition two_rets : list spec := [Sp 0 FFloat 8 TFloat 0; Sp 0 FAuto 8 TIndex 0].
+Definition two_rets_inp : inputs :=
+  {| regs := []; xmm := [0x4004000000000000]; stk := []; rets := [42; 0]; strs := []; wrds := [] |}.
+Definition next_rec : list N := enc_rec 0 2000 UFTRACE_ENTRY 1 0x401000 None.
+
+(* the writer records both values (16 bytes), the reader consumes both, replay shows the first *)
+Lemma two_rets_recorded :
+  payload (run 0 two_rets_inp true two_rets) = Some (le_bytes 8 0x4004000000000000 ++ le_bytes 8 42) /\
+  read_args true two_rets (le_bytes 8 0x4004000000000000 ++ le_bytes 8 42 ++ next_rec) =
+    Some (le_bytes 8 0x4004000000000000 ++ le_bytes 8 42, next_rec) /\
+  decode_stream 2 (fun _ => two_rets)
+    (enc_rec 0 1000 UFTRACE_EXIT 1 0x401000 (payload (run 0 two_rets_inp true two_rets)) ++ next_rec) =
+  [ {| d_time := 1000; d_type := UFTRACE_EXIT; d_depth := 1; d_addr := 0x401000;
+       d_args := Some (le_bytes 8 0x4004000000000000 ++ le_bytes 8 42) |};
+    {| d_time := 2000; d_type := UFTRACE_ENTRY; d_depth := 1; d_addr := 0x401000; d_args := None |} ].
+Proof. vm_compute. repeat split; reflexivity. Qed.
+
+(* a reader that stops after the first return value spec (as the formatter may) leaves the second value in the
+   stream: the record behind the payload is then read 8 bytes early and is lost *)
+Fixpoint read_args_loop_first (specs : list spec) (acc stream : list N) : option (list N * list N) :=
+  match specs with
+  | [] => Some (acc, stream)
+  | s :: r => if s_idx s =? 0 then read_arg s acc stream else read_args_loop_first r acc stream
+  end.
+Lemma first_retval_reader_refuted :
+  let p := le_bytes 8 0x4004000000000000 ++ le_bytes 8 42 in
+  read_args_loop_first two_rets [] (p ++ next_rec) = Some (le_bytes 8 0x4004000000000000, le_bytes 8 42 ++ next_rec) /\
+  (* what the next header read would take for the record word does not carry the record magic *)
+  (of_le (takeN 8 (dropN 8 (le_bytes 8 42 ++ next_rec))) / 8) mod 8 <> RECORD_MAGIC.
+Proof. vm_compute. split; [reflexivity|discriminate]. Qed.
